@@ -173,6 +173,22 @@ def check_lease_set_exact(ctx, files, rid="C23.4"):
             ctx.violate(rid, F, "lease-set-not-made-exact:%s" % ("no-drop" if not drops else "no-add"), BUCKET, ul["line"],
                         "a path of update_leases changes the lease set without %s: afterwards the set is not the expected one"
                         % ("removing the leases that are not expected" if not drops else "adding every expected lease"))
+    # who may write the lease set: update_leases only.  A lease granted anywhere else (a `grant_lease` used by a retry path)
+    # is granted without the judgement of the applied metadata that update_leases' caller makes for the whole set
+    writers = []
+    for it in b.items:
+        if it.get("k") != "fn" or not isinstance(it.get("body"), dict):
+            continue
+        for n in A.walk(it["body"]):
+            if isinstance(n, dict) and n.get("k") == "mcall" and n.get("method") in ("write", "try_write", "blocking_write") and "active_leases" in A.text(n.get("recv") or {}):
+                writers.append((it["name"], n.get("line")))
+    others = [w for w in writers if w[0] != "update_leases"]
+    if others:
+        ctx.violate(rid, "Storage::%s" % others[0][0], "lease-set-written-outside-update_leases", BUCKET, others[0][1],
+                    "%s takes the write lock of the lease set: leases are granted or dropped outside update_leases, i.e. not as the set computed from the applied metadata - a lease "
+                    "for a sealed segment can come back (e.g. on an append retry) and the node writes into the segment it has sealed" % others[0][0])
+    elif writers:
+        ctx.ok(rid, F, "the lease set is written only by update_leases", BUCKET, writers[0][1])
     ctx.floor(rid, "paths of Storage::update_leases that leave the set untouched", n_fast, 1)
     ctx.floor(rid, "paths of Storage::update_leases that rewrite the set", n_slow, 1)
 
